@@ -346,3 +346,9 @@ Definition expected_verifyWithExecutor : list string := [
   "return"
 ].
 
+
+(** the points at which the in-memory sync state is reset to that of a fresh session: the end of a
+    session (acbcc3c) and the run-time reset of the local state (a3c8cc9).  [Machine.set_closed] /
+    entry machine_reset give the state; the theorems about a fresh session
+    ([verify_after_reset_incremental_only_same_generation], ...) apply after each of them. *)
+Definition expected_sync_state_reset_sites : list string := ["Close"; "ResetLocalState"].
